@@ -1238,6 +1238,13 @@ func genCharSet(t *rapid.T, alpha string, rows []string) string {
 		return rapid.SampledFrom([]string{"N", "n", "Nn", "X"}).Draw(t, "wild")
 	case 2:
 		return string(pool[rapid.IntRange(0, len(pool)-1).Draw(t, "one")])
+	case 3:
+		// any letters: a chosen character need not be a residue of the alignment
+		cs := gen.SeqN(t, "ABCDEFGHIJKLMNOPQRSTUVWXYZabcdefghijklmnopqrstuvwxyz", rapid.IntRange(1, 3).Draw(t, "nany"))
+		if cs == "MAJ" || cs == "GAP" {
+			cs = "A"
+		}
+		return cs
 	}
 	return gen.SeqN(t, pool, rapid.IntRange(1, 4).Draw(t, "ncs"))
 }
